@@ -283,7 +283,7 @@ var pureLibPrefixes = []string{
 	"(github.com/cosmos/cosmos-sdk/types.Coin).", "(github.com/cosmos/cosmos-sdk/types.Coins).", "(github.com/cosmos/cosmos-sdk/types.DecCoin).",
 	"(cosmossdk.io/math.Int).", "(cosmossdk.io/math.LegacyDec).", "(cosmossdk.io/math.Uint).", "cosmossdk.io/math.",
 	"(github.com/cosmos/cosmos-sdk/x/staking/types.Validator).", "(github.com/cosmos/cosmos-sdk/x/staking/types.Delegation).",
-	"github.com/cosmos/cosmos-sdk/types/errors.", "github.com/cosmos/gogoproto/proto.EnumName", "sort.SearchInts", "sort.SearchStrings", "slices.Contains", "slices.Index",
+	"github.com/cosmos/cosmos-sdk/types/errors.", "github.com/cosmos/gogoproto/proto.EnumName", "github.com/cosmos/cosmos-sdk/types.Bech32ifyAddressBytes", "github.com/cosmos/cosmos-sdk/types.GetConfig", "(*github.com/cosmos/cosmos-sdk/types.Config).GetBech32", "sort.SearchInts", "sort.SearchStrings", "slices.Contains", "slices.Index",
 }
 
 func pureLibFunc(name string) bool {
